@@ -160,6 +160,11 @@ def specIsEnum (decl : List Const) (v : Int) : Bool := decl.any (fun c => c.val 
 def Dec.obs (d : Dec) : Bool × Int := (d.1.isNone, d.2)
 
 
+/-- ParseEnum of a declared name from a package-level initializer that sorts before the generated
+    file ⇒ `F_init_order`: the property has ParseEnum succeed on every declared name; at that moment it
+    does not (see `parseEnumAtInit`) -/
+def F_init_order (i : Input) : Bool := WF i
+
 /-! IsEnum probes `(kV, p)`: `p` an integer of the type TV of kind `kV`.  Since /repo ffb3b3d the
     conversion must round-trip (no truncation) and since 2c3f80e the signs must agree (no
     reinterpretation of the bit pattern), so every probe of every integer type is asserted. -/
